@@ -37,6 +37,8 @@ TYPES = {
     "idref":  ("type identityref { base vf-ids:SHAPE; }", ["enum:CIRCLE", "enum:SQUARE", "enum:TRI"]),
     "u-is":   ("type uis;", ["int32:-5", "str:abc", "int32:0", "str:zz", "int32:7"]),
     "u-bu":   ("type ubu;", ["bin:00ff10", "uint16:9", "bin:616263", "uint16:0"]),
+    "u-bs":   ("type ubs;", ["bool:true", "str:True", "str:1", "str:abc", "bool:false", "str:t"]),
+    "u-iu":   ("type uiu;", ["enum:CIRCLE", "uint8:9", "enum:TRI", "uint8:0"]),
     "u-eu":   ("type ueu;", ["enum:E1", "uint32:9", "enum:E2", "uint32:0"]),
     "binary": ("type binary;", ["bin:00ff10", "bin:", "bin:616263"]),
     "empty":  ("type empty;", ["empty"]),
@@ -55,14 +57,14 @@ T_VARIANTS = {
     "t7": ["uint16", "int16",  "idref",  "int64",  "idref",  "uint8", "uint16", "idref",  "int32", "uint32", "uint16", "int16",  "int8",   "uint8", "int64"],
     "t8": ["uint32", "string", "u-eu",   "dec2",   "dec2",   "u-is",  "idref",  "u-eu",   "u-is",  "u-eu",   "int32",  "u-eu",   "dec2",   "u-eu", "dec2"],
     "t9": ["dec2",   "uint8",  "int8",   "enum",   "int16",  "enum",  "dec2",   "int8",   "int64", "int8",   "boolean", "int64",  "uint16", "int64", "boolean"],
-    "t10": ["u-bu",  "u-bu",   "u-bu",   "u-bu",   "string", "u-bu",  "u-bu",   "uint8",  "u-bu",  "int32",  "string", "u-bu",   "u-bu",   "u-bu",  "u-bu"],
+    "t10": ["u-bu",  "u-iu",   "u-iu",   "u-bu",   "u-bs",   "u-bu",  "u-iu",   "uint8",  "u-bu",  "int32",  "string", "u-iu",   "u-bu",   "u-bu",  "u-bu"],
 }
 OC_VARIANTS = {
     "o1": ["string", "int32",  "string", "uint8",  "string", "string", "int8",  "string", "uint16", "string", "uint8",  "string", "uint64", "string", "int16"],
     "o2": ["enum",   "uint64", "int32",  "string", "uint32", "idref", "boolean", "enum",  "string", "int16",  "idref",  "dec2",   "enum",   "int32", "enum"],
     "o3": ["u-is",   "dec2",   "u-eu",   "int64",  "u-is",   "u-eu",  "string", "int64",  "u-is",  "enum",   "u-is",   "boolean", "idref",  "u-is", "u-is"],
     "o4": ["int64",  "binary", "uint64", "boolean", "int8",  "binary", "dec2",  "idref",  "int64", "uint64", "int64",  "u-eu",   "dec2",   "dec2", "uint64"],
-    "o5": ["u-bu",   "string", "u-bu",   "u-bu",   "string", "u-bu",  "u-bu",   "uint16", "u-bu",  "string", "string", "u-bu",   "u-bu",   "u-bu", "u-bu"],
+    "o5": ["u-bu",   "u-iu",   "u-bu",   "u-bu",   "u-bs",   "u-iu",  "u-bu",   "uint16", "u-bu",  "string", "string", "u-bu",   "u-bu",   "u-bu", "u-bu"],
 }
 
 
@@ -81,7 +83,9 @@ def gen_tree():
            "  typedef uis { type union { type int32; type string { pattern '[a-z]+'; } } }\n"
            "  typedef e12 { type enumeration { enum E1; enum E2; } }\n"
            "  typedef ueu { type union { type e12; type uint32; } }\n"
-           "  typedef ubu { type union { type uint16; type binary; } }\n\n"]
+           "  typedef ubu { type union { type uint16; type binary; } }\n"
+           "  typedef ubs { type union { type boolean; type string; } }\n"
+           "  typedef uiu { type union { type identityref { base vf-ids:SHAPE; } type uint8; } }\n\n"]
     out.append("  container vt {\n")
     for name, types in T_VARIANTS.items():
         r = dict(zip(ROLES, types))
@@ -117,7 +121,9 @@ def gen_oc():
            "  typedef uis { type union { type int32; type string { pattern '[a-z]+'; } } }\n"
            "  typedef e12 { type enumeration { enum E1; enum E2; } }\n"
            "  typedef ueu { type union { type e12; type uint32; } }\n"
-           "  typedef ubu { type union { type uint16; type binary; } }\n\n"]
+           "  typedef ubu { type union { type uint16; type binary; } }\n"
+           "  typedef ubs { type union { type boolean; type string; } }\n"
+           "  typedef uiu { type union { type identityref { base vf-ids:SHAPE; } type uint8; } }\n\n"]
     out.append("  container vo {\n")
     for name, types in OC_VARIANTS.items():
         r = dict(zip(ROLES, types))
